@@ -29,6 +29,12 @@ func init() {
 	register(&Family{Name: "ledgersettle", Gen: genSettleHist, Run: runSettleHist}) // C05: the same histories, ledger monitors
 	register(&Family{Name: "lifecycle", Gen: genSettleHist, Run: runSettleHist})    // C12: the same histories, life-cycle and vote monitors
 	register(&Family{Name: "coversettle", Gen: genSettleHist, Run: runSettleHist})  // C04: the same histories, the dispute account covers what it owes
+	// C05: fees paid from stake against the model of FeefromReporterStake (mostly the directed variant, richer groups)
+	register(&Family{Name: "feestake", Gen: func(r *Rng, i int, tier string) []string {
+		settleRich = true
+		defer func() { settleRich = false }()
+		return genSettleHist(r, i, tier)
+	}, Run: runSettleHist})
 }
 
 func dumpSettle(c *Chain) []string {
@@ -129,6 +135,27 @@ func dumpSettle(c *Chain) []string {
 	return out
 }
 
+// dumpStoreOrder lists the selectors and the delegations in store (key) order: the order in which FeefromReporterStake walks them
+//   O sel,sel,…/delegator:validator,delegator:validator,…
+func dumpStoreOrder(c *Chain) string {
+	ctx := c.Ctx()
+	var ss, ds []string
+	if it, err := c.App.ReporterKeeper.Selectors.Iterate(ctx, nil); err == nil {
+		for ; it.Valid(); it.Next() {
+			k, _ := it.Key()
+			ss = append(ss, c.nameOf(k))
+		}
+		it.Close()
+	}
+	dels, _ := c.App.StakingKeeper.GetAllDelegations(ctx)
+	for _, d := range dels {
+		da, _ := sdk.AccAddressFromBech32(d.DelegatorAddress)
+		va, _ := sdk.ValAddressFromBech32(d.ValidatorAddress)
+		ds = append(ds, c.nameOf(da)+":"+c.valName(va))
+	}
+	return "O " + strings.Join(ss, ",") + "/" + strings.Join(ds, ",")
+}
+
 func runSettleHist(t *testing.T, in []string) string {
 	nv, _ := strconv.Atoi(in[0])
 	cfg := ChainCfg{NVals: nv, NAccts: 7}
@@ -194,6 +221,7 @@ func runSettleHist(t *testing.T, in []string) string {
 		hh.Out = append(hh.Out, dumpRepStake(c)...)
 		ds := dumpSlash(c)
 		hh.Out = append(hh.Out, ds[0], ds[1], ds[3]) // U, P, K
+		hh.Out = append(hh.Out, dumpStoreOrder(c))
 		hh.Out = append(hh.Out, dumpSettle(c)...)
 	}
 	for _, op := range strings.Split(in[1], ";") {
@@ -205,11 +233,18 @@ func runSettleHist(t *testing.T, in []string) string {
 	return strings.Join(h.Out, " ;; ")
 }
 
+// settleRich (family feestake): two of three histories are the directed variant, the paying reporter v1 gets a further selector with
+// one to three delegations (also to a validator outside the bonded set), and the fee is also paid in several parts from stake
+var settleRich = false
+
 func genSettleHist(r *Rng, i int, tier string) []string {
 	nv := 3 + r.Intn(2) // the last validator neither reports nor is disputed
 	// directed variant (1 in 5): v1 pays a fee from bond, is then pushed out of the bonded set (validator cap 2, a newcomer
 	// overtakes it), and the first dispute ends with a refund to a validator that is no longer bonded
 	directed := r.Chance(1, 5)
+	if settleRich {
+		directed = r.Chance(2, 3)
+	}
 	cfgMaxv, cfgTokens := "100", ""
 	if directed {
 		nv = 3
@@ -243,6 +278,13 @@ func genSettleHist(r *Rng, i int, tier string) []string {
 		tx("del a3 v1 %d", r.Pick(100000, 150000, 200000))
 		tx("del a3 v0 %d", r.Range(4e6, 9e6))
 		tx("sel a3 v1")
+		if settleRich && !twoSel {
+			perm := [][]int{{0, 1, 2}, {1, 0, 2}, {2, 0, 1}, {2, 1, 0}, {1, 2, 0}, {0, 2, 1}}[r.Intn(6)]
+			for j, n := 0, 1+r.Intn(3); j < n; j++ {
+				tx("del a2 v%d %d", perm[j], r.Pick(50000, 120000, 3000000, odd()))
+			}
+			tx("sel a2 v1")
+		}
 	}
 	// the report that will be disputed (by a0 mostly: stake of several odd-sized backers)
 	target := r.PickS("a0", "a0", "v0")
@@ -264,6 +306,9 @@ func genSettleHist(r *Rng, i int, tier string) []string {
 		first = "v1"
 	}
 	full := r.Chance(1, 3) || directed
+	if settleRich && directed {
+		full = r.Chance(1, 2)
+	}
 	// many payers (1 in 4 of the others): three to five distinct accounts pay odd amounts, so that every refund share has a
 	// fractional part (the remainders accumulate in the dust counter)
 	many := !directed && r.Chance(1, 4)
@@ -273,6 +318,9 @@ func genSettleHist(r *Rng, i int, tier string) []string {
 	fee := int64(1e12)
 	if !full {
 		fee = r.Pick(1000, 4000, 10000, 25000, 1001, 3333, 7777)
+		if settleRich {
+			fee = r.Pick(1000, 7777, 10000001, 25000000, 3333333)
+		}
 	}
 	bond := func(p string) int64 {
 		if p == "v1" && (directed || r.Chance(1, 2)) {
@@ -290,6 +338,10 @@ func genSettleHist(r *Rng, i int, tier string) []string {
 		for j := 0; j < n; j++ {
 			p := payers[r.Intn(len(payers))]
 			amt := r.Pick(1000, 3000, 7000, 20000, 1e12, 1001, 3333, 7777, 2501)
+			if settleRich && r.Chance(1, 2) {
+				p = "v1"
+				amt = r.Pick(1001, 5000000, 12345678, 1e12)
+			}
 			if many {
 				p = payers[(start+j)%len(payers)]
 				amt = r.Pick(1001, 3333, 7777, 2501, 12345, 999)
